@@ -35,7 +35,12 @@ def summarize(U, path, inline=(), keep_tags=False, args=None):
 
 
 def check_spec(ctx, rule, inst, U, path, inline, atoms, spec_fn, keep_tags=False, args=None, feasible=None):
-    outs, b, ev = summarize(U, path, inline, keep_tags, args)
+    try:
+        outs, b, ev = summarize(U, path, inline, keep_tags, args)
+    except ModelError as e:
+        # fail closed, but keep evaluating the other rules
+        ctx.ob(rule, inst, False, "%s: %s" % (e.rule, e.what), e.where)
+        return None, None
     problems = list(S.compare_cases(outs, atoms, spec_fn, feasible))
     obs = "; ".join("[%s] %s %s" % (T.show_guard(g), k, T.show(t)) for g, k, t in outs)
     if problems:
